@@ -2103,4 +2103,58 @@ theorem step_comm_example' :
     indep (.wPut 0) .loadPut = true ∧ enabled commCfg commState (.wPut 0) = true ∧ enabled commCfg commState .loadPut = true
       ∧ indep (.wPut 0) .cGet = false := by decide
 
+
+/-! ### abandon: the caller's own steps finish the call -/
+
+theorem drainIn_all (c : Cfg) (q : List (Option ItemSpec)) (s : State) (hq : s.inq = q) (hm : s.main = .fin) (rest : List Action) :
+    runTrace c s (List.replicate q.length .drainIn ++ rest) =
+      runTrace c { s with inq := [], dropIn := s.dropIn ++ q } rest := by
+  induction q generalizing s with
+  | nil =>
+    have : { s with inq := [], dropIn := s.dropIn } = s := by cases s; simp_all
+    simp [this]
+  | cons x xs ih =>
+    simp only [List.length_cons, List.replicate_succ, List.cons_append, runTrace]
+    have he : enabled c s .drainIn = true := by simp [enabled, hm, hq]
+    rw [if_pos he]
+    have := ih (step c s .drainIn) (by simp [step, hq]) (by simp [step, hq, hm])
+    rw [this]
+    simp [step, hq, List.append_assoc]
+
+theorem drainOut_all (c : Cfg) (q : List (Option Nat)) (s : State) (hq : s.outq = q) (hm : s.main = .fin) (rest : List Action) :
+    runTrace c s (List.replicate q.length .drainOut ++ rest) =
+      runTrace c { s with outq := [], dropOut := s.dropOut ++ q } rest := by
+  induction q generalizing s with
+  | nil =>
+    have : { s with outq := [], dropOut := s.dropOut } = s := by cases s; simp_all
+    simp [this]
+  | cons x xs ih =>
+    simp only [List.length_cons, List.replicate_succ, List.cons_append, runTrace]
+    have he : enabled c s .drainOut = true := by simp [enabled, hm, hq]
+    rw [if_pos he]
+    have := ih (step c s .drainOut) (by simp [step, hq]) (by simp [step, hq, hm])
+    rw [this]
+    simp [step, hq, List.append_assoc]
+
+/-- the caller gives up in any `consuming` state: its own steps alone (no help from any other thread) finish the call,
+both queues are empty when it returns (nothing it handed out stays referenced by the queues) and nothing is raised -/
+theorem abandon_returns' (c : Cfg) (s : State) (hc : s.main = .consuming) :
+    ∃ s', runTrace c s (finishSeq s) = some s' ∧ s'.main = .done ∧ s'.inq = [] ∧ s'.outq = []
+      ∧ outcome s' = .closed s.recv ∧ s'.ws = s.ws ∧ (∀ w, enabled c s' (.wGet w) = false)
+      ∧ (∀ w k, s.ws[w]? = some (.run k [] none) → mayTake c k = true → parked c s' w = true) := by
+  have he : enabled c s .cAbandon = true := by simp [enabled, hc]
+  simp only [finishSeq, runTrace, if_pos he, List.append_assoc]
+  have h1 := drainIn_all c s.inq (step c s .cAbandon) (by simp [step]) (by simp [step]) (List.replicate s.outq.length .drainOut ++ [.mDone])
+  rw [h1]
+  have h2 := drainOut_all c s.outq { (step c s .cAbandon) with inq := [], dropIn := (step c s .cAbandon).dropIn ++ s.inq }
+    (by simp [step]) (by simp [step]) [.mDone]
+  rw [h2]
+  refine ⟨_, rfl, ?_⟩
+  refine ⟨by simp [step], by simp [step], by simp [step], by simp [step, outcome], by simp [step], ?_, ?_⟩
+  · intro w
+    simp only [enabled, step]
+    split <;> simp
+  · intro w k hw hk
+    simp [parked, step, hw, hk]
+
 end Coba.C08
